@@ -399,6 +399,11 @@ FAMILIES = {'parens': 40, 'parens-sum': 40, 'nested-sum': 30, 'nested-if': 24, '
             'args': 16, 'ifs-args': 12, 'chain-forward': 16, 'chain-backward': 16, 'long-int-literal': 16, 'long-frac-literal': 8, 'long-string': 8,
             'wide-area': 10}
 WORK_CAP = 6_000_000
+# sizes far beyond the unit steps (only the outcome class is judged there: python's compiler has limits of its own - about 200
+# nested brackets - that a translation must respect or reject)
+FAR = {'parens': [64, 65, 100, 199, 200, 201, 250, 400], 'parens-sum': [64, 65, 100, 199, 200, 201, 250], 'nested-sum': [64, 65, 100, 200],
+       'nested-if': [64, 65, 100], 'nested-mixed': [64, 65, 120], 'unary-chain': [13, 14, 40, 41, 50, 60], 'op-chain': [40, 41, 45, 60, 100],
+       'cmp-amp-chain': [40, 41, 45, 60, 100], 'args': [25, 40, 100], 'ifs-args': [40, 45], 'chain-backward': [30, 60], 'chain-forward': [60, 200]}
 
 
 class WorkCounter:
@@ -469,6 +474,11 @@ def run_family(name, dmax, rec):
         works.append((d, w))
         if w > WORK_CAP:
             break
+    for d in FAR.get(name, []):
+        if rec.out_of_time():
+            break
+        fs, _ = run_family_point(name, d, rec)
+        fails += fs
     # growth: ratio of successive sizes at the three largest sizes
     if len(works) >= 6:
         tail = works[-4:]
@@ -585,6 +595,8 @@ UNSUPPORTED = ['=FOO(1)', '=sum(1)', '=SQRT(4)', '=A1^2', '=ABS(-1)', '=LEN("a")
                '=IFS(0,1,2)', '=5%5%', '=1%2', '=(1+2)%', '=10%%', '=TRUE()()', '=@SUM(1)', '=_x(1)', '=A1!B1', '=S!S!A1', "=''!A1", '=!A1', '=1:2', '=A:1',
                '=INDEX(A1:A3,A1:A3)', '=COUNT((0))', '=SUMIF(A1:A3,">1",B:B)', '=VLOOKUP(1,A1,1)', '=MATCH(1,A1:A3&A1:A3&A1:A3,0)', '=ADDRESS(1,2,3,4,5,6,7)',
                '=COLUMN(A1:B2:C3)', '=DATE(1,2)', '=TEXT(1)', '=1' + '+1' * 60, '=-' * 3 + '1', '=--1', '=1--1', '="a"&', '=&"a"', '=<>1', '=1<>', '=1=<2',
+               '=COUNTIFS(A1:A3,">007")', '=COUNTIFS(A1:A3,">٣")', '=SUMIF(A1:A3,"<=0010")', '=COUNTIFS(A1:A3,"=1_000")', '=COUNTIFS(A1:A3,">1E5")', '=COUNTIFS(A1:A3,">.5")',
+               '=COUNTIFS(A1:A3,"> 5")', '=COUNTIFS(A1:A3,">-5")', '=COUNTIFS(A1:A3,">+5")', '=COUNTIFS(A1:A3,">5.")', '=COLUMN(ABCD1)', '=COLUMN(A0)', '=COLUMN(A0:B2)',
                '=SUM(A1:A3)(1)', '=SUM (1)', '=S U M(1)', '=SUMM(1)', '=IFF(1,2,3)', '=TRUEFALSE', '=TRUE1', '=FALSE0', '=A1B2', '=1A', '=A', '=AB', '=$', '=$A', '=A$',
                "='", "='a", "='a'", "='a'!", '=!', '=~', '=~1', '=1~2', '=;', '=,', '=(,)', '=(1,2)', '=((1)', '=(1))']
 
@@ -615,7 +627,12 @@ def wb_strategy(adversarial):
                     st.tuples(seed, rnd).map(lambda t: c05.mutate_chars(c05.render_tokens(c05.ast_tokens(t[0])), t[1])),
                     rnd.map(lambda r: c05.soup_items(r, 1)[0]['t']),
                     st.tuples(seed, st.integers(1, 30)).map(lambda t: c05.render_tokens(c05.ast_tokens(t[0]))[:t[1] + 1]).filter(lambda s: len(s) > 1),
-                    text.map(lambda s: '=' + s))
+                    text.map(lambda s: '=' + s),
+                    # criterion literals: an operator and something number-like (what reaches the generated lambda must be python)
+                    st.tuples(st.sampled_from(['COUNTIFS(A1:A3,', 'SUMIF(A1:A3,', 'SUMIFS(D1:D2,A1:A2,', 'AVERAGEIFS(D1:D2,A1:A2,']), st.sampled_from(['>', '<', '>=', '<=', '<>', '=', '']),
+                              st.text(alphabet='0123456789.eE+-_ ٣٠x,', min_size=1, max_size=8)).map(lambda t: '=' + t[0] + '"' + t[1] + t[2] + '")'),
+                    st.tuples(st.sampled_from(['COLUMN', 'SUM', 'INDEX', 'COUNT']), st.text(alphabet='ABCXZ', min_size=1, max_size=5), st.integers(0, 3)).map(
+                        lambda t: f'={t[0]}({t[1]}{t[2]}' + (',1)' if t[0] == 'INDEX' else ')')))
     formula = st.one_of(valid_formula, valid_formula, text_formula, arrayf) if not adversarial else st.one_of(valid_formula, bad, bad, text_formula)
     value = st.one_of(const, const, formula)
     addr = st.tuples(st.integers(1, 8), st.integers(1, 10)).map(lambda t: wbk.a1(*t))
